@@ -196,6 +196,14 @@ class Spy(object):
                     self.missed.append((sim.now, tid, sim.tasks[tid].deadline))
         return False
 
+    def check_builtin_inspect(self, rp):
+        known = [n for n in rp.inspected if isinstance(n, str) and n.startswith("builtins.") and n.split(".")[1] in (
+            "method", "function", "builtin_function_or_method", "list", "dict", "set", "tuple", "module", "generator", "type", "object")]
+        if known:
+            raise core.Violation("nested-request-for-builtin-type", "processing a reply that carries a reference to a %s made a nested request "
+                                 "(INSPECT) to the peer: instances of the built-in types are known on both sides, the reply must be processed "
+                                 "without further traffic" % known[0])
+
     def check_missed(self):
         if self.reparked:
             t, tid, seq, n = self.reparked[0]
@@ -275,6 +283,7 @@ class ReorderPeer(object):
         self.stop = False
         self.refs = refs
         self.nref = 0
+        self.inspected = []         # class names the real side asked us to describe
 
     def reader(self):
         p = self.peer
@@ -284,6 +293,10 @@ class ReorderPeer(object):
                 if kind == RC.MSG_REQUEST:
                     h, boxed = args
                     if h == RC.H_INSPECT:
+                        try:
+                            self.inspected.append(boxed[1][0][0])
+                        except Exception:
+                            self.inspected.append(None)
                         p.reply(seq, (RC.LABEL_VALUE, (("tok", None),)))
                     elif h in (RC.H_DEL, RC.H_CLOSE):
                         p.reply(seq, (RC.LABEL_VALUE, None))
@@ -304,6 +317,10 @@ class ReorderPeer(object):
         mode = tok[1] if isinstance(tok, tuple) and len(tok) > 1 else "v"
         if mode == "x":
             p.exception(seq, (("builtins", "KeyError"), (tok,), (), "tb"))
+        elif mode == "m" and self.refs:
+            # a bound method: one of the types both sides know without asking (the published built-in type table)
+            self.nref += 1
+            p.reply(seq, (RC.LABEL_TUPLE, ((RC.LABEL_VALUE, tok), (RC.LABEL_REMOTE_REF, ("builtins.method", 7000 + self.nref, 8000 + self.nref)))))
         elif mode == "o" and self.refs:
             self.nref += 1
             p.reply(seq, (RC.LABEL_TUPLE, ((RC.LABEL_VALUE, tok), (RC.LABEL_REMOTE_REF, ("peer.Thing%d" % self.nref, 5000 + self.nref, 6000 + self.nref)))))
